@@ -505,6 +505,20 @@ fn gen_prog(t: &mut Tape) -> Case {
         let tail = render(&FlowGen::new(t).program(), &spelling, OPTS).text;
         return Case::Prog { src: big_file(t, &tail), stdin: vec![], origin: "big_file".into() };
     }
+    if t.chance(1, 25) {
+        // single `say`s of big values: one long line, several lines with a long last line, a long line read from the
+        // input and echoed behind a line break (whatever the output stream buffers or splits must still arrive whole)
+        let unit = *t.choose(&["x", "ab", "é", "0123456789"]);
+        let long = |t: &mut Tape| -> String { std::iter::repeat(unit).take(1 + (900 + t.pick(6000)) / unit.len()).collect() };
+        let (a, b, c) = (long(t), long(t), long(t));
+        let src = format!(
+            "say \"{}\"\nsay \"head\n{}\"\nlisten to the line\nsay \"echo\n\" plus the line\nsay \"two\n\nblank then {}\"\nsay \"done\"\nsay the line at 100000\nsay 1 over nothing at 1\n",
+            a, b, &c[..c.len().min(1500)]
+        );
+        let mut stdin = long(t).into_bytes();
+        stdin.push(b'\n');
+        return Case::Prog { src, stdin, origin: "long_say".into() };
+    }
     let which = t.weighted(&[24, 8, 8, 10, 5, 15, 10, 10, 5, 5]);
     let (src, stdin, origin): (String, Vec<u8>, &str) = match which {
         0 => {
@@ -585,7 +599,7 @@ impl Prop for C20 {
     }
     fn rule(&self) -> String {
         "program files from ten sources (say/listen programs with generated input texts; function, array, control-flow and dictionary programs; wild programs that fail at run time after 0..n lines of output, with input incl. invalid UTF-8; \
-         constant-assignment programs with many lint reports; valid programs with a syntax fault injected on some line; repository test programs, verbatim and token-mutated; random grammar programs; 4% files padded to 8-40 KiB with multi-byte comment/say lines so that characters straddle every buffer boundary) rendered with random aliases/case/comments/layout, \
+         constant-assignment programs with many lint reports; valid programs with a syntax fault injected on some line; repository test programs, verbatim and token-mutated; random grammar programs; 4% files padded to 8-40 KiB with multi-byte comment/say lines so that characters straddle every buffer boundary; 4% programs that `say` single values of 1-7 KB with line breaks inside) rendered with random aliases/case/comments/layout, \
          written under four file names (plain, with a blank, non-ASCII, no extension). Each is run through the real binary four times: `exec` with separate stdout/stderr files, `exec` with both streams on ONE append-mode file, `lint`, `parse`; \
          stdout/stderr bytes must equal the library's output, `Runtime error: `/`Parse error: ` + the library's message + newline, the diagnostics rebuilt from the library's Diag values, and `{:#?}` of the library's tree; no status 101 / signal. \
          Plus a fixed list of refused usages x 3 subcommands (missing file, empty path, directory, no argument, extra argument, unknown flag, invalid UTF-8 path, unknown subcommand) and generated ones: exit status must be non-zero and not a crash. \
@@ -668,7 +682,7 @@ impl Prop for C20 {
         for k in ["missing_file_among_several", "missing_file", "directory_as_file", "no_file_argument", "extra_argument", "unknown_flag", "unknown_subcommand", "invalid_utf8_path", "file_below_a_file"] {
             v.push(format!("usage:{}", k));
         }
-        for o in ["big_file", "io", "functions", "arrays", "flow", "dicts", "wild", "lint", "syntax_fault", "repo_snippet", "grammar"] {
+        for o in ["long_say", "big_file", "io", "functions", "arrays", "flow", "dicts", "wild", "lint", "syntax_fault", "repo_snippet", "grammar"] {
             v.push(format!("origin:{}", o));
         }
         v
